@@ -40,6 +40,8 @@ pub struct NodeState {
 
 #[derive(Clone)]
 pub struct SimNode {
+    /// the node process is down: RPCs and block-source calls fail with transport / transient errors
+    pub down: Arc<std::sync::atomic::AtomicBool>,
     pub state: Arc<Mutex<NodeState>>,
     pub chain: Arc<Mutex<ChainState>>,
     pub log: EventLog,
@@ -56,7 +58,7 @@ impl std::error::Error for Refused {}
 
 impl SimNode {
     pub fn new(chain: Arc<Mutex<ChainState>>, log: EventLog) -> Self {
-        SimNode { state: Arc::new(Mutex::new(NodeState::default())), chain, log }
+        SimNode { down: Arc::new(std::sync::atomic::AtomicBool::new(false)), state: Arc::new(Mutex::new(NodeState::default())), chain, log }
     }
 
     pub fn client(&self) -> bitcoincore_rpc::Client {
@@ -114,7 +116,12 @@ impl SimNode {
             let mut st = lock(&self.state);
             let idx = st.rpc_calls;
             st.rpc_calls += 1;
-            let failing = st.down || st.outage.map_or(false, |(a, b)| idx >= a && idx < b);
+            if st.outage.map_or(false, |(a, b)| idx >= a && idx < b) {
+                // the scripted outage starts with this very RPC and lasts until the harness ends it
+                st.outage = None;
+                self.down.store(true, std::sync::atomic::Ordering::SeqCst);
+            }
+            let failing = st.down || self.down.load(std::sync::atomic::Ordering::SeqCst);
             if failing {
                 drop(st);
                 match method {
